@@ -33,7 +33,7 @@ func manifest() int {
 	}
 	sort.Strings(all)
 	var cks []any
-	var na []any
+	na := []any{}
 	var served []string
 	for _, id := range all {
 		if _, ok := checks.Registry[id]; !ok {
